@@ -56,6 +56,10 @@ func child(op string) int {
 		if err := d.SaveEntity(db.NewEntity(os.Getenv("VERIF_CHILD_KEY"), val, val[:len(val)/2])); err != nil {
 			return 4
 		}
+	case "delete":
+		st.Delete(os.Getenv("VERIF_CHILD_KEY"))
+	case "delete-entity":
+		db.NewDatabaseWithStorage(st).DeleteEntity(db.NewEntity(os.Getenv("VERIF_CHILD_KEY"), nil, nil))
 	default:
 		return 5
 	}
@@ -161,7 +165,7 @@ func explore(c crashCase, scratch string) (points int, leftovers int, err error)
 	d := db.NewDatabaseWithStorage(st)
 	storageKey := c.Key
 	var oldRaw, newRaw []byte
-	if c.Op == "save-entity" {
+	if c.Op == "save-entity" || c.Op == "delete-entity" {
 		if c.HasOld {
 			d.SaveEntity(db.NewEntity(c.Key, c.Old, c.Old[:len(c.Old)/2]))
 		}
@@ -217,6 +221,20 @@ func explore(c crashCase, scratch string) (points int, leftovers int, err error)
 			}
 		}
 	}
+	if c.isDelete() {
+		now := map[string]bool{}
+		for _, k := range after {
+			now[k] = true
+		}
+		for k := range snap {
+			if !now[k] {
+				storageKey = k
+			}
+		}
+		if c.HasOld && now[storageKey] {
+			return points, 0, fmt.Errorf("complete run: %s(%q) left the key %q in place", c.Op, c.Key, storageKey)
+		}
+	}
 	newRaw, _ = st2.Get(storageKey)
 	oldRaw, hadOld := snap[storageKey]
 	if c.Op == "set" && !bytes.Equal(newRaw, c.New) {
@@ -253,8 +271,13 @@ func judgeAfterCrash(c crashCase, work, storageKey string, hadOld bool, oldRaw, 
 	got, gerr := fresh.Get(storageKey)
 	switch {
 	case gerr != nil:
-		if hadOld {
+		if hadOld && !c.isDelete() {
 			return leftovers, fmt.Errorf("crash at point %s: key %q is gone (it held %d bytes before the write)", point, storageKey, len(oldRaw))
+		}
+	case c.isDelete():
+		// a removal has two outcomes: the key is gone, or it still holds its previous value in full
+		if !hadOld || !bytes.Equal(got, oldRaw) {
+			return leftovers, fmt.Errorf("crash at point %s during %s: key %q holds %d bytes %q - neither absent nor the previous value (%s)", point, c.Op, storageKey, len(got), trunc(got), describeOld(hadOld, oldRaw))
 		}
 	case bytes.Equal(got, newRaw):
 	case hadOld && bytes.Equal(got, oldRaw):
@@ -300,6 +323,8 @@ func judgeAfterCrash(c crashCase, work, storageKey string, hadOld bool, oldRaw, 
 	return leftovers, nil
 }
 
+func (c crashCase) isDelete() bool { return c.Op == "delete" || c.Op == "delete-entity" }
+
 func describeOld(had bool, b []byte) string {
 	if !had {
 		return "absent"
@@ -326,8 +351,8 @@ var vlen = rapid.OneOf(rapid.IntRange(0, 3), rapid.IntRange(0, 200), rapid.Sampl
 
 func TestC19Prop(t *testing.T) {
 	rapid.Check(t, func(t *rapid.T) {
-		c := crashCase{Op: rapid.SampledFrom([]string{"set", "set", "save-entity"}).Draw(t, "op"), Others: map[string][]byte{}}
-		if c.Op == "set" {
+		c := crashCase{Op: rapid.SampledFrom([]string{"set", "set", "set", "save-entity", "save-entity", "delete", "delete-entity"}).Draw(t, "op"), Others: map[string][]byte{}}
+		if c.Op == "set" || c.Op == "delete" {
 			c.Key = rapid.SampledFrom([]string{"uuid", "version", "configHash", "k", "a.entity.bak"}).Draw(t, "key")
 		} else {
 			c.Key = rapid.SampledFrom([]string{"ctl-1", "AA:BB:CC:DD:EE:FF", "名前"}).Draw(t, "name")
@@ -337,7 +362,7 @@ func TestC19Prop(t *testing.T) {
 			c.Old = filler(vlen.Draw(t, "oldlen"), rapid.Uint32().Draw(t, "oldseed"))
 		}
 		c.New = filler(vlen.Draw(t, "newlen"), rapid.Uint32().Draw(t, "newseed"))
-		if c.Op == "save-entity" {
+		if c.Op == "save-entity" || c.Op == "delete-entity" {
 			if len(c.New) < 2 {
 				c.New = filler(32, 9)
 			}
@@ -356,7 +381,7 @@ func TestC19Prop(t *testing.T) {
 			fmt.Println("VERIF-INCONCLUSIVE:", err)
 			t.Fatalf("%v", err)
 		}
-		if points == 0 {
+		if points == 0 && !c.isDelete() { // a removal is a single unlink in the library as it stands: no crash point inside
 			fmt.Println("VERIF-INCONCLUSIVE: the operation passed no crash point (hooks missing?)")
 			t.Fatalf("no crash points")
 		}
@@ -383,6 +408,8 @@ func TestC19Regress(t *testing.T) {
 		{Op: "set", Key: "k", HasOld: false, New: filler(100, 3)},
 		{Op: "set", Key: "k", HasOld: true, Old: filler(4096, 3), New: filler(10, 4)},
 		{Op: "save-entity", Key: "controller", HasOld: true, Old: filler(32, 5), New: filler(32, 6)},
+		{Op: "delete-entity", Key: "controller", HasOld: true, Old: filler(32, 5), New: filler(32, 6)},
+		{Op: "delete", Key: "configHash", HasOld: true, Old: filler(16, 5), New: filler(2, 6), Others: map[string][]byte{"uuid": []byte("x")}},
 	}
 	for i, c := range cases {
 		scratch := scratchDir()
@@ -392,7 +419,7 @@ func TestC19Regress(t *testing.T) {
 		stats.Case(stats.Hash("regress", i), true, []string{"regress", c.relation()}, func() interface{} {
 			return map[string]interface{}{"op": c.Op, "key": c.Key, "old_len": len(c.Old), "new_len": len(c.New), "crash_points": points}
 		})
-		if err != nil && strings.HasPrefix(err.Error(), "INFRA") || points == 0 {
+		if err != nil && strings.HasPrefix(err.Error(), "INFRA") || points == 0 && !c.isDelete() {
 			fmt.Println("VERIF-INCONCLUSIVE:", err, "points:", points)
 			t.Fatalf("inconclusive: %v", err)
 		}
